@@ -83,6 +83,8 @@ pub struct State {
     pub(crate) inline_modules: FnvMap<String, Arc<Cow<'static, str>>>,
     pub(crate) index_map: FnvMap<String, BytePos>,
     extern_globals: FnvSet<String>,
+    /// Modules which were looked for but not found
+    missing_modules: FnvSet<String>,
 }
 
 impl State {
@@ -212,10 +214,14 @@ impl crate::query::CompilationBase for CompilerDatabase {
             }
             hash_map::Entry::Vacant(entry) => {
                 entry.insert(Arc::new(Cow::Owned(contents.into())));
-                // An earlier import of this module may have memoized that it does not exist
-                ModuleTextQuery
-                    .in_db_mut(self as &mut dyn Compilation)
-                    .invalidate(&module);
+                // An earlier import of this module may have memoized that it does not exist.
+                // Only invalidate in that case: invalidating starts a new revision which forces
+                // every loaded module to be verified again
+                if state.missing_modules.remove(&module) {
+                    ModuleTextQuery
+                        .in_db_mut(self as &mut dyn Compilation)
+                        .invalidate(&module);
+                }
             }
         }
         state.add_filemap(&module, &contents[..]);
@@ -539,11 +545,19 @@ fn module_text(db: &dyn Compilation, module: String) -> StdResult<Arc<Cow<'stati
         filename.push_str(".glu");
 
         let use_standard_lib = db.compiler_settings().use_standard_lib;
-        Arc::new(
-            crate::get_import(db.thread())
-                .get_module_source(use_standard_lib, &module, &filename)
-                .map_err(macros::Error::new)?,
-        )
+        match crate::get_import(db.thread()).get_module_source(
+            use_standard_lib,
+            &module,
+            &filename,
+        ) {
+            Ok(contents) => Arc::new(contents),
+            Err(err) => {
+                // Remember the failed lookup so that `add_module` knows that it needs to
+                // invalidate the result if the module is added later
+                db.compiler().state().missing_modules.insert(module);
+                return Err(macros::Error::new(err).into());
+            }
+        }
     };
 
     Ok(contents)
